@@ -684,6 +684,28 @@ pub fn probe_framing() -> i32 {
         let via_value = <$t>::from_cbor_value(ciborium::de::from_reader(&body[..]).unwrap());
         if via_value.ok() != <$t>::from_slice(&body).ok() { if report("C13", format!("{}: from_slice and from_cbor_value disagree on {}", $name, hex(&body))) { return 1; } }
     }}; }
+    // the outer array / map head written with a longer argument or as an indefinite-length container is the same item: the byte
+    // API and the value API take it alike, with the same result as for the shortest form
+    macro_rules! heads { ($t:ty, $body:expr, $name:expr) => {{
+        let body: Vec<u8> = $body;
+        let (major, cnt) = (body[0] >> 5, (body[0] & 0x1f) as u8);
+        let base = <$t>::from_slice(&body).ok();
+        let mut variants: Vec<Vec<u8>> = vec![];
+        for hd in [vec![(major << 5) | 24, cnt], vec![(major << 5) | 25, 0, cnt], vec![(major << 5) | 26, 0, 0, 0, cnt], vec![(major << 5) | 27, 0, 0, 0, 0, 0, 0, 0, cnt]] { let mut b = hd; b.extend(&body[1..]); variants.push(b); }
+        { let mut b = vec![(major << 5) | 31]; b.extend(&body[1..]); b.push(0xff); variants.push(b); }
+        for v in variants {
+            n += 1;
+            let a = <$t>::from_slice(&v).ok();
+            let via = ciborium::de::from_reader::<Value, _>(&v[..]).ok().and_then(|x| <$t>::from_cbor_value(x).ok());
+            if a != via { if report("C13", format!("{}: from_slice and from_cbor_value(parse) disagree on {} (the item {} with a longer / indefinite outer head)", $name, hex(&v), hex(&body))) { return 1; } }
+            if a != base { if report("C13,C09", format!("{}: {} (the item {} with a longer / indefinite outer head) does not decode like the shortest form", $name, hex(&v), hex(&body))) { return 1; } }
+        }
+    }}; }
+    heads!(CoseSign1, sign1.clone(), "CoseSign1"); heads!(CoseEncrypt0, enc0.clone(), "CoseEncrypt0"); heads!(CoseMac0, vec![0x84, 0x40, 0xa0, 0xf6, 0x41, 0x01], "CoseMac0");
+    heads!(CoseSign, vec![0x84, 0x40, 0xa0, 0xf6, 0x81, 0x83, 0x40, 0xa0, 0x41, 0x01], "CoseSign"); heads!(CoseMac, vec![0x85, 0x40, 0xa0, 0xf6, 0x41, 0x01, 0x80], "CoseMac");
+    heads!(CoseEncrypt, vec![0x84, 0x40, 0xa0, 0xf6, 0x80], "CoseEncrypt"); heads!(CoseRecipient, vec![0x83, 0x40, 0xa0, 0xf6], "CoseRecipient"); heads!(CoseSignature, vec![0x83, 0x40, 0xa0, 0x41, 0x01], "CoseSignature");
+    heads!(Header, vec![0xa1, 0x01, 0x26], "Header"); heads!(CoseKey, vec![0xa1, 0x01, 0x04], "CoseKey"); heads!(CoseKeySet, vec![0x81, 0xa1, 0x01, 0x04], "CoseKeySet");
+    heads!(cwt::ClaimsSet, vec![0xa1, 0x01, 0x61, b'i'], "ClaimsSet"); heads!(CoseKdfContext, vec![0x84, 0x01, 0x83, 0xf6, 0xf6, 0xf6, 0x83, 0xf6, 0xf6, 0xf6, 0x82, 0x18, 0x80, 0x40], "CoseKdfContext");
     framing!(CoseSign1, sign1.clone(), "CoseSign1");
     framing!(CoseEncrypt0, enc0.clone(), "CoseEncrypt0");
     framing!(CoseMac0, vec![0x84, 0x40, 0xa0, 0xf6, 0x41, 0x01], "CoseMac0");
@@ -957,6 +979,29 @@ pub fn probe_order() -> i32 {
             if CoseKey::from_slice(&bytes).ok().and_then(|k| k.to_vec().ok()) != Some(bytes.clone()) { if report("C16,C20", format!("canonicalised key does not re-encode to the same bytes")) { return 1; } }
         }
     } }
+    // large keys: many extra parameters whose labels share encoded lengths, in a scrambled order (sorting algorithms switch
+    // strategy with the slice length)
+    for &cnt in &[21usize, 33, 64, 100, 257, 1000] {
+        let mut r = Rng::from_env();
+        let mut labels: Vec<Label> = vec![];
+        for i in 0..cnt { labels.push(match i % 4 { 0 => Label::Int(30 + i as i64), 1 => Label::Int(-30 - i as i64), 2 => Label::Int(5000 + i as i64), _ => Label::Text(format!("{:03}", i)) }); }
+        for i in (1..labels.len()).rev() { let j = r.below(i as u64 + 1) as usize; labels.swap(i, j); }
+        let mut k = CoseKeyBuilder::new_symmetric_key(vec![1]).build();
+        k.params.clear();
+        for (i, l) in labels.iter().enumerate() { k.params.push((l.clone(), Value::from(i as i64))); }
+        for (ord, name) in [(CborOrdering::Lexicographic, "lexicographic"), (CborOrdering::LengthFirstLexicographic, "length-first")] {
+            n += 1;
+            let mut c = k.clone();
+            c.canonicalize(ord);
+            let bytes = c.clone().to_vec().unwrap();
+            let keys = crate::map_key_encodings(&bytes).unwrap();
+            let asc = keys.windows(2).all(|w| if name == "lexicographic" { w[0] < w[1] } else { (w[0].len(), &w[0]) < (w[1].len(), &w[1]) });
+            if !asc { if report("C16,C20", format!("canonicalize({}) of a key with {} extra parameters: encoded map keys not ascending", name, cnt)) { return 1; } }
+            let mut p1 = k.params.clone(); let mut p2 = c.params.clone();
+            p1.sort_by(|a, b| enc_label(&a.0).cmp(&enc_label(&b.0))); p2.sort_by(|a, b| enc_label(&a.0).cmp(&enc_label(&b.0)));
+            if p1 != p2 { if report("C16,C20", format!("canonicalize({}) of a key with {} extra parameters changed the set of parameters", name, cnt)) { return 1; } }
+        }
+    }
     println!("probe order: {} comparisons, no disagreement", n);
     0
 }
@@ -1309,7 +1354,7 @@ pub fn probe_builders() -> i32 {
     #[derive(Clone)]
     enum Call { KeyId(Vec<u8>), Alg, Crit(iana::HeaderParameter), CritLabel(RegisteredLabel<iana::HeaderParameter>), Cf, Ct(String), Iv(Vec<u8>), Piv(Vec<u8>), CounterSig, Value(i64), Text(String) }
     let calls = vec![Call::KeyId(vec![1]), Call::KeyId(vec![]), Call::Alg, Call::Crit(iana::HeaderParameter::Alg), Call::Crit(iana::HeaderParameter::Kid), Call::CritLabel(RegisteredLabel::Assigned(iana::HeaderParameter::Alg)),
-        Call::CritLabel(RegisteredLabel::Text("x".into())), Call::Cf, Call::Ct("a/b".into()), Call::Iv(vec![5]), Call::Iv(vec![]), Call::Piv(vec![6]), Call::CounterSig, Call::Value(1000), Call::Value(0), Call::Value(8), Call::Text("t".into())];
+        Call::CritLabel(RegisteredLabel::Text("x".into())), Call::Cf, Call::Ct("a/b".into()), Call::Ct(" a/b ".into()), Call::Ct("  ".into()), Call::Ct("".into()), Call::Iv(vec![5]), Call::Iv(vec![]), Call::Piv(vec![6]), Call::CounterSig, Call::Value(1000), Call::Value(0), Call::Value(8), Call::Text("t".into())];
     let apply = |b: HeaderBuilder, m: &mut Header, c: &Call| -> HeaderBuilder { match c {
         Call::KeyId(k) => { m.key_id = k.clone(); b.key_id(k.clone()) }
         Call::Alg => { m.alg = Some(Algorithm::Assigned(iana::Algorithm::ES256)); b.algorithm(iana::Algorithm::ES256) }
@@ -1548,6 +1593,38 @@ pub fn probe_roundtrip() -> i32 {
         match h.clone().to_vec() {
             Ok(b) => { if Header::from_slice(&b).ok() != Some(h.clone()) { if report("C11", format!("Header with content type {:?} does not decode back", ct)) { return 1; } } }
             Err(e) => { if report("C11", format!("well-formed Header with content type {:?} does not encode: {:?}", ct, e)) { return 1; } }
+        }
+    }
+    // a populated field is emitted whatever its value: registered values that are 0 / `Default` of their type included
+    {
+        let has = |v: &Value, k: i64| matches!(v, Value::Map(m) if m.iter().any(|(kk, _)| *kk == Value::from(k)));
+        let hs: Vec<(Header, i64, &str)> = vec![
+            (HeaderBuilder::new().algorithm(iana::Algorithm::Reserved).build(), 1, "alg = Reserved (0)"),
+            (Header { alg: Some(Algorithm::default()), ..Default::default() }, 1, "alg = Algorithm::default()"),
+            (HeaderBuilder::new().content_format(iana::CoapContentFormat::TextPlainUtf8).build(), 3, "content format 0"),
+            (Header { content_type: Some(ContentType::Text(String::new())), ..Default::default() }, 3, "content type \"\" (in memory)"),
+            (HeaderBuilder::new().add_critical(iana::HeaderParameter::Reserved).build(), 2, "crit [Reserved (0)]"),
+            (HeaderBuilder::new().add_counter_signature(CoseSignature::default()).build(), 7, "a default counter signature"),
+        ];
+        for (h, k, what) in hs {
+            n += 1;
+            match h.clone().to_cbor_value() {
+                Ok(v) => { if !has(&v, k) { if report("C11,C07", format!("Header with {}: label {} is missing from the encoding {}", what, k, hex(&ser(&v)))) { return 1; } }
+                           if (k != 3 || what.starts_with("content format")) && k != 7 { if Header::from_cbor_value(v.clone()).ok() != Some(h.clone()) { if report("C11", format!("Header with {} does not decode back from {}", what, hex(&ser(&v)))) { return 1; } } } }
+                Err(e) => { if report("C11", format!("Header with {} does not encode: {:?}", what, e)) { return 1; } }
+            }
+        }
+        let ks: Vec<(CoseKey, i64, &str)> = vec![
+            (CoseKey { kty: KeyType::Assigned(iana::KeyType::Symmetric), alg: Some(Algorithm::default()), ..Default::default() }, 3, "alg = Algorithm::default()"),
+            (CoseKey { kty: KeyType::Assigned(iana::KeyType::Symmetric), params: vec![(Label::Int(-1), Value::Bytes(vec![]))], ..Default::default() }, -1, "k = h''"),
+        ];
+        for (k0, lab, what) in ks {
+            n += 1;
+            match k0.clone().to_cbor_value() {
+                Ok(v) => { if !has(&v, lab) { if report("C11", format!("COSE_Key with {}: label {} is missing from the encoding {}", what, lab, hex(&ser(&v)))) { return 1; } }
+                           if CoseKey::from_cbor_value(v.clone()).ok() != Some(k0.clone()) { if report("C11", format!("COSE_Key with {} does not decode back from {}", what, hex(&ser(&v)))) { return 1; } } }
+                Err(e) => { if report("C11", format!("COSE_Key with {} does not encode: {:?}", what, e)) { return 1; } }
+            }
         }
     }
     // time claims keep their kind (integer vs float) across encode/decode
